@@ -74,8 +74,9 @@ class Written:
 
 class WS(list):
     """the written amounts of a journal; fmt = (position, Written) when a `commodity SYM / format AMOUNT` directive stands
-    before the posting at that position"""
+    before the posting at that position; decl = (position, symbol, sub-directives) for a declaration without format"""
     fmt = None
+    decl = None
 
 
 def gen_journal(rng, n):
@@ -116,6 +117,10 @@ def gen_journal(rng, n):
         f = Written(rng, s, rng.choice(['pre', 'suf']), rng.random() < 0.5, rng.random() < 0.5, False, rng.choice([0, 2, 2, 3, 6]))
         f.dcomma = False
         out.fmt = (0 if rng.random() < 0.6 else rng.randrange(0, n), f)
+    elif rng.random() < 0.25:
+        # a commodity declared WITHOUT a format (nomarket, a note): the declaration fixes nothing - decimals and style are
+        # learned from the postings as if it were not there
+        out.decl = (0 if rng.random() < 0.7 else rng.randrange(0, n), rng.choice(syms), rng.sample(['nomarket', 'note held for the children', 'note x'], rng.choice([1, 1, 2])))
     return out
 
 
@@ -144,7 +149,11 @@ def gen_symbol_sweep(rng):
 def render(ws):
     lines = []
     fmt = getattr(ws, 'fmt', None)
+    decl = getattr(ws, 'decl', None)
     for i, w in enumerate(ws):
+        if decl and decl[0] == i:
+            q = '"%s"' % decl[1] if needs_quote(decl[1]) else decl[1]
+            lines += ['commodity %s' % q] + ['    ' + d for d in decl[2]] + ['']
         if fmt and fmt[0] == i:
             q = '"%s"' % fmt[1].sym if needs_quote(fmt[1].sym) else fmt[1].sym
             lines += ['commodity %s' % q, '    format %s' % fmt[1].text, '']
@@ -239,6 +248,8 @@ def run(ctx, n_override=None):
         if getattr(ws, 'fmt', None):
             items.insert(ws.fmt[0], ['fmt', ws.fmt[1].text.encode('utf-8')])
             res.count('format-directive:' + ('in-front' if ws.fmt[0] == 0 else 'inside'))
+        if getattr(ws, 'decl', None):
+            res.count('commodity-declared-without-format:' + '+'.join(d.split(' ')[0] for d in ws.decl[2]))
         model_lines.append(lib.sx(['journal', 'j%d' % j] + items))
     mout = []
     for k in range(0, len(model_lines), 60):          # the extracted MPFR model works on 800-bit integers: keep batches small
